@@ -35,6 +35,60 @@ type osEntry struct {
 	isDir bool
 	size  int64
 	mode  os.FileMode
+	// symbolic links: the entry describes what the link leads to (what Stat and Open see);
+	// lmode / lsize are the link's own (what Lstat sees); a dangling link leads nowhere
+	link     bool
+	dangling bool
+	lmode    os.FileMode
+	lsize    int64
+}
+
+// lstatView is the entry as os.Lstat reports it: the link itself, not what it leads to.
+func (e *osEntry) lstatView() *osEntry {
+	if !e.link {
+		return e
+	}
+	return &osEntry{path: e.path, isDir: false, size: e.lsize, mode: e.lmode}
+}
+
+// listTree lists root as the reference for file-system loaders does: every entry below it
+// relative to root with a leading "/", directories (and links that lead to directories,
+// which are descended into) with a trailing "/", links to files as files, dangling links
+// not at all; the root itself is "/".
+func listTree(root string) []string {
+	out := []string{"/"}
+	var rec func(dir, rel string, links int)
+	rec = func(dir, rel string, links int) {
+		ents, err := os.ReadDir(dir)
+		if err != nil {
+			return
+		}
+		for _, de := range ents {
+			p, r := filepath.Join(dir, de.Name()), rel+"/"+de.Name()
+			info, err := os.Stat(p)
+			if err != nil {
+				continue
+			}
+			if !info.IsDir() {
+				out = append(out, r)
+				continue
+			}
+			out = append(out, r+"/")
+			l := links
+			if de.Type()&os.ModeSymlink != 0 {
+				l++
+			}
+			if l <= 2 {
+				rec(p, r, l)
+			}
+		}
+	}
+	if info, err := os.Stat(root); err != nil || !info.IsDir() {
+		return nil
+	}
+	rec(root, "", 0)
+	sort.Strings(out)
+	return out
 }
 
 type osFileState struct {
@@ -55,23 +109,7 @@ func init() {
 	ndExternals["vfOSRoot"] = vfOSRoot
 	ndExternals["vfListTree"] = func(fr *frame, a []value) value {
 		root, _ := a[0].(string)
-		var out []string
-		filepath.Walk(root, func(p string, info os.FileInfo, err error) error {
-			if err != nil {
-				return nil
-			}
-			rel, _ := filepath.Rel(root, p)
-			rel = "/" + filepath.ToSlash(rel)
-			if rel == "/." {
-				rel = ""
-			}
-			if info.IsDir() {
-				rel += "/"
-			}
-			out = append(out, rel)
-			return nil
-		})
-		sort.Strings(out)
+		out := listTree(root)
 		vs := make([]value, len(out))
 		for k, s := range out {
 			vs[k] = s
@@ -185,24 +223,52 @@ func (m *osModel) walk() {
 	if m.entries != nil {
 		return
 	}
-	err := filepath.Walk(m.root, func(p string, info os.FileInfo, err error) error {
-		if err != nil {
-			return err
-		}
-		if info.IsDir() && info.Name() == ".git" {
-			return filepath.SkipDir
-		}
-		if info.Mode()&os.ModeSymlink != 0 {
-			panic(unsupported("os model: symbolic link %s below the declared root", p))
-		}
-		m.entries = append(m.entries, osEntry{path: p, isDir: info.IsDir(), size: info.Size(), mode: info.Mode()})
-		return nil
-	})
+	rootInfo, err := os.Stat(m.root)
 	if err != nil {
 		panic(unsupported("os model: cannot walk %s: %v", m.root, err))
 	}
-	if len(m.entries) > 400 {
-		panic(unsupported("os model: more than 400 entries below %s", m.root))
+	m.entries = append(m.entries, osEntry{path: m.root, isDir: rootInfo.IsDir(), size: rootInfo.Size(), mode: rootInfo.Mode()})
+	var rec func(dir string, links int)
+	rec = func(dir string, links int) {
+		ents, err := os.ReadDir(dir)
+		if err != nil {
+			panic(unsupported("os model: cannot walk %s: %v", dir, err))
+		}
+		for _, de := range ents {
+			p := filepath.Join(dir, de.Name())
+			linfo, err := os.Lstat(p)
+			if err != nil {
+				panic(unsupported("os model: cannot walk %s: %v", p, err))
+			}
+			if linfo.IsDir() && de.Name() == ".git" {
+				continue
+			}
+			e := osEntry{path: p, isDir: linfo.IsDir(), size: linfo.Size(), mode: linfo.Mode()}
+			l := links
+			if linfo.Mode()&os.ModeSymlink != 0 {
+				// what the link leads to is what Stat, Open and a path through it see
+				e.link, e.lmode, e.lsize = true, linfo.Mode(), linfo.Size()
+				l++
+				if info, err := os.Stat(p); err != nil {
+					e.dangling, e.isDir = true, false
+				} else {
+					e.isDir, e.size, e.mode = info.IsDir(), info.Size(), info.Mode()
+				}
+			}
+			m.entries = append(m.entries, e)
+			if len(m.entries) > 400 {
+				panic(unsupported("os model: more than 400 entries below %s", m.root))
+			}
+			if e.isDir {
+				if l > 2 {
+					panic(unsupported("os model: links to directories nested more than two deep below %s", m.root))
+				}
+				rec(p, l)
+			}
+		}
+	}
+	if rootInfo.IsDir() {
+		rec(m.root, 0)
 	}
 	for d := filepath.Dir(m.root); ; d = filepath.Dir(d) {
 		m.entries = append(m.entries, osEntry{path: d, isDir: true, mode: os.ModeDir | 0o755})
@@ -262,13 +328,15 @@ func (i *interpreter) osFileInfo(e osEntry) value {
 // osResolve returns the entry a name denotes (nil: does not exist). name is returned
 // concretised when it had to be.
 func (i *interpreter) osResolve(fr *frame, name value) (*osEntry, value) {
-	e, nm, _ := i.osResolveK(fr, name)
+	e, nm, _ := i.osResolveK(fr, name, true)
 	return e, nm
 }
 
 // osResolveK also reports why a name does not resolve: "notdir" when a proper prefix of
 // the path is a regular file (ENOTDIR), else "notexist" (ENOENT).
-func (i *interpreter) osResolveK(fr *frame, name value) (*osEntry, value, string) {
+// follow: whether a symbolic link in the last position is followed (Stat, Open) or
+// reported itself (Lstat).
+func (i *interpreter) osResolveK(fr *frame, name value, follow bool) (*osEntry, value, string) {
 	m, _ := i.extState["osmodel"].(*osModel)
 	if m == nil {
 		panic(unsupported("os file access without vfOSRoot (the os model is off)"))
@@ -282,7 +350,11 @@ func (i *interpreter) osResolveK(fr *frame, name value) (*osEntry, value, string
 		if strings.IndexByte(n, 0) >= 0 || n == "" {
 			return nil
 		}
-		info, err := os.Stat(p)
+		stat := os.Stat
+		if !follow {
+			stat = os.Lstat
+		}
+		info, err := stat(p)
 		if err != nil {
 			if errors.Is(err, syscall.ENOTDIR) {
 				kind = "notdir"
@@ -315,6 +387,12 @@ func (i *interpreter) osResolveK(fr *frame, name value) (*osEntry, value, string
 			continue
 		}
 		if i.branch(i.strEqTerm(abs, e.path)) {
+			if !follow {
+				return e.lstatView(), name, kind
+			}
+			if e.dangling {
+				return nil, name, kind
+			}
 			return e, name, kind
 		}
 	}
@@ -326,6 +404,9 @@ func (i *interpreter) osResolveK(fr *frame, name value) (*osEntry, value, string
 		}
 		head := normStr(strBytes(abs)[:len(e.path)+1])
 		if i.branch(i.strEqTerm(head, e.path+"/")) {
+			if e.dangling {
+				return nil, name, "notexist"
+			}
 			return nil, name, "notdir"
 		}
 	}
@@ -366,7 +447,7 @@ func (i *interpreter) osNoEntry(op string, nm value, kind string) value {
 }
 
 func (i *interpreter) osStat(fr *frame, name value, op string) value {
-	e, nm, kind := i.osResolveK(fr, name)
+	e, nm, kind := i.osResolveK(fr, name, op != "lstat")
 	if e == nil {
 		return tuple{iface{}, i.osNoEntry(op, nm, kind)}
 	}
@@ -374,7 +455,7 @@ func (i *interpreter) osStat(fr *frame, name value, op string) value {
 }
 
 func (i *interpreter) osOpen(fr *frame, name value) value {
-	e, nm, kind := i.osResolveK(fr, name)
+	e, nm, kind := i.osResolveK(fr, name, true)
 	osPkg := i.prog.ImportedPackage("os")
 	fileT := osPkg.Type("File").Object().Type()
 	if e == nil {
